@@ -5,18 +5,113 @@ import vcommon as V
 RULE = ("random CIDs (1..5 fields of types Text/Choice with empty flag, length, allowed characters; 0..3 checks IsUnique/"
         "DistinctCount; header 0..2; delimited and fixed) x tables of 0..8 rows with ragged widths, rejected cells and "
         "duplicates, read with on_error='yield'; per output: the row or (error family, row, column, field named in the "
-        "message, see-also location), read after the iteration finished. Non-trivial: at least one data row after the "
+        "message, see-also location), read after the iteration finished; 15 % of the cases are the second pass of a Reader that has already read the same data once (row numbers start at 1 again). Second family: errors.Location itself - random flags, paths and sequences of advance_line/advance_cell/set_cell/advance_column/advance_sheet/copy - its printed text (or the AssertionError of a guarded operation) against Model/Location.v. Non-trivial: at least one data row after the "
         "header. Distinct = distinct (CID, table).")
 
 
+# ---- a second family of cases: errors.Location itself (counters, operations with their asserts, printed text)
+import copy as _copy
+from cutplace import errors as _errors
+import readercase as _RC
+from common import B, L, Nat, O, P, S
+
+MODEL_FILES = _RC.MODEL_FILES + ["Model/Location.v"]
+HEADER = _RC.HEADER + """
+From CP Require Import Model.Location.
+Inductive c04in := CRun (i : cid cstate * bool * mode * option nat * list (list text) * bool)
+                 | CLoc (path : text) (has_column has_cell has_sheet : bool) (ops : list lop).
+Inductive c04obs := ORun (o : run_obs) | OLoc (t : option text).
+Definition run4 (i : c04in) : c04obs :=
+  match i with
+  | CRun x => ORun (run x)
+  | CLoc p a b c ops => OLoc (option_map loc_text (lsteps (new_location p a b c) ops))
+  end.
+Definition c04_eqb (a b : c04obs) : bool :=
+  match a, b with
+  | ORun x, ORun y => run_obs_eqb x y
+  | OLoc x, OLoc y => option_eqb text_eqb x y
+  | _, _ => false
+  end."""
+CASE_TYPE = "c04in * c04obs"
+MODEL = "run4"
+EQB = "c04_eqb"
+LOC_PATHS = ["data.csv", "some/dir/data.csv", "/abs/x.ods", "<io>", "dir/", "odd (R9C9).csv", "a/b/(R1C1)", "x"]
+
+
+def location_case(inp):
+    loc = _errors.Location(inp["path"], has_column=inp["flags"][0], has_cell=inp["flags"][1], has_sheet=inp["flags"][2])
+    text = None
+    try:
+        for op, k in inp["ops"]:
+            if op == "column":
+                loc.advance_column(k)
+            elif op == "cell":
+                loc.advance_cell(k)
+            elif op == "set":
+                loc.set_cell(k)
+            elif op == "line":
+                loc.advance_line(k)
+            elif op == "sheet":
+                loc.advance_sheet()
+            else:
+                loc = _copy.copy(loc)
+        text = str(loc)
+    except AssertionError:
+        text = None
+    names = {"column": "LAdvColumn", "cell": "LAdvCell", "set": "LSetCell", "line": "LAdvLine"}
+    ops = [o for o in inp["ops"] if o[0] != "copy"]
+    coq_ops = L(ops, lambda o: "LAdvSheet" if o[0] == "sheet" else "(%s %s)" % (names[o[0]], Nat(o[1])))
+    coq_in = "(CLoc %s %s %s %s %s)" % (S(inp["path"]), B(inp["flags"][0]), B(inp["flags"][1]), B(inp["flags"][2]), coq_ops)
+    return {"coq": P(coq_in, "(OLoc %s)" % O(text, S)), "obs": {"text": text}, "nontrivial": text is not None and len(ops) >= 2,
+            "tags": ["location", "asserted" if text is None else "printed"]}
+
+
+def make_case(inp):
+    if inp.get("kind") == "location":
+        return location_case(inp)
+    c = _RC.make_case(inp)
+    # "(in, obs)" -> "(CRun in, ORun obs)": the reader case is a pair printed by P
+    assert c["coq"].startswith("(") and c["coq"].endswith(")")
+    depth, i = 0, 1
+    while True:
+        ch = c["coq"][i]
+        depth += ch == "("
+        depth -= ch == ")"
+        i += 1
+        if depth == 0:
+            break
+    c["coq"] = "(CRun %s, ORun %s)" % (c["coq"][1:i], c["coq"][i + 2:-1])
+    return c
+
+
+def gen_locations(tier, rnd):
+    for _ in range(150 if tier == "quick" else 3000):
+        flags = [rnd.random() < 0.3, rnd.random() < 0.8, rnd.random() < 0.3]
+        ops = []
+        for _k in range(rnd.randint(0, 7)):
+            op = rnd.choice(["cell", "set", "line", "line", "sheet", "column", "copy"])
+            k = rnd.choice([0, 1, 1, 2, 3, 9, 10, 99, 100, 12345]) if op != "line" else rnd.choice([0, 1, 1, 1, 2, 8, 9, 10, 98, 99, 999])
+            ops.append([op, k])
+        yield {"kind": "location", "path": rnd.choice(LOC_PATHS), "flags": flags, "ops": ops}
+
+
 def gen_inputs(tier, rnd):
+    yield from gen_locations(tier, rnd)
     n = 700 if tier == "quick" else 8000
     for _ in range(n):
         spec = V.gen_spec(rnd)
-        yield {"spec": spec, "table": V.gen_table(rnd, spec), "mode": "yield"}
+        yield {"spec": spec, "table": V.gen_table(rnd, spec), "mode": "yield", "prepass": rnd.random() < 0.15}
 
 
 def direct_oracle(inp, obs):
+    if inp.get("kind") == "location":
+        return None
+    # the text of an error names the 1-based row and column of its location
+    for o in obs["outs"]:
+        if "err" in o and o["err"].get("text") and o["err"]["family"] != "FDataFormat":
+            want = "(R%dC%d)" % (o["err"]["line"] + 1, o["err"]["cell"] + 1)
+            if want not in o["err"]["text"]:
+                return "error text %r does not name %s" % (o["err"]["text"], want)
     # location must name the input: StringIO sources are reported as '<io>'
     for o in obs["outs"]:
         if "err" in o and o["err"].get("path") not in ("<io>", None):
